@@ -173,12 +173,19 @@ def apply_op(m, op, f, alt):
     elif op == "post_cat":
         m.post_cat(*vals)
     elif op == "mul_right":
-        if alt:
+        if alt == 2:
+            m = m @ svg.Matrix(*vals)
+        elif alt:
             m *= svg.Matrix(*vals)
         else:
             m = m * svg.Matrix(*vals)
     elif op == "mul_left":
-        m = svg.Matrix(*vals) * m
+        if alt == 2:
+            n = svg.Matrix(*vals)
+            n @= m
+            m = n
+        else:
+            m = svg.Matrix(*vals) * m
     elif op == "invert":
         if alt:
             m.inverse()
